@@ -432,7 +432,7 @@ def smt2_of(pc, goal):
 def pc_status(pc, timeout_ms=1500):
     """Is the path condition satisfiable?  sat / unsat / unknown (quantified hypotheses often give unknown)."""
     s = z3.Solver()
-    s.set(timeout=timeout_ms)
+    s.set(timeout=timeout_ms * 4, rlimit=3000000)     # deterministic budget
     nq = 0
     for c in pc:
         if _has_quantifier(c):
